@@ -280,6 +280,17 @@ def check_case(fns, case, limits=False):
         col, _ = call(fns["retrieval_noise"], K, Sa, Sy, np.eye(m)[j])
         law("noise-columns", mx(col / N.da - Gt[:, j] / N.dy[j]) if col is not None else np.inf,
             16 * U * mx(Gt[:, j] / N.dy[j]) + 1e-300, f"retrieval_noise(e_{j}) is not column {j} of retrieval_gain_matrix")
+        # ... in particular the zero vector maps to the zero vector OF THE STATE SPACE (length n, not m), whatever its dtype
+        for zlabel, ez in (("float zeros", np.zeros(m)), ("integer zeros", np.zeros(m, dtype=np.int64))):
+            try:
+                with np.errstate(all="ignore"):
+                    rz = np.asarray(fns["retrieval_noise"](K.copy(), Sa.copy(), Sy.copy(), ez), dtype=float)
+            except Exception as e_:  # noqa
+                bad.append(("noise-of-zero", f"retrieval_noise raised {type(e_).__name__}: {e_} for e_y = {zlabel} of length {m}"))
+                continue
+            if rz.shape != (n,) or np.any(rz != 0):
+                bad.append(("noise-of-zero", f"retrieval_noise of e_y = {zlabel} (length m = {m}) has shape {rz.shape} / values "
+                            f"{rz.ravel()[:3].tolist()}; G 0 is the zero vector of length n = {n}"))
         # retrieval_noise is the LINEAR MAP G e_y: a block of error vectors (columns) is mapped column by column -- also a
         # single column (m, 1) and a square block (m, m)
         for pcols in (1, 3, m):
